@@ -291,16 +291,13 @@ Proof.
   destruct (Qfloor_bounds (inject_Z 1000 / (large - off))) as [Hg1 Hg2].
   assert (0 <= inject_Z 1000 / (large - off)) as Hq.
   { apply Qle_shift_div_l; [exact Hpos|]. rewrite Qmult_0_l. vm_compute. intros C; discriminate C. }
-  repeat split.
-  - eexists; reflexivity.
-  - eexists; reflexivity.
+  split; [eexists; reflexivity|]. split; [eexists; reflexivity|].
+  split; [apply inject_Z_nonneg, Qfloor_nonneg; exact Hq|].
+  intros x H. rewrite Ecells in H.
+  assert (small0 <= x /\ x <= large) as [Hx1 Hx2].
+  { destruct H as [Hx|Hx]; [subst; split; lra|]. rewrite Forall_forall in Hm2, HM2. split; auto. }
+  split; [lra|].
+  apply (Qmult_le_1000 _ (large - off)); try lra.
   - apply inject_Z_nonneg, Qfloor_nonneg. exact Hq.
-  - assert (small0 <= x) as Hx.
-    { destruct H as [Hx|Hx]; [subst; lra|]. rewrite Forall_forall in Hm2. apply Hm2, Hx. }
-    lra.
-  - assert (small0 <= x /\ x <= large) as [Hx1 Hx2].
-    { destruct H as [Hx|Hx]; [subst; split; lra|]. rewrite Forall_forall in Hm2, HM2. split; auto. }
-    apply (Qmult_le_1000 _ (large - off)); try lra.
-    + apply inject_Z_nonneg, Qfloor_nonneg. exact Hq.
-    + exact Hg1.
+  - exact Hg1.
 Qed.
